@@ -316,8 +316,13 @@ def gen_cycle_design(r, wordlevel=False):
         place = r.choice(PLACES)
         kind = "comb"
         cond = None
-        if r.random() < 0.2:
-            cond = ["slice", src(1), 0, 1, None]
+        if r.random() < 0.35:
+            # one or two enclosing control blocks: If / Elif after an earlier If / Switch case, nested
+            cond = []
+            for _ in range(r.choice([1, 1, 2])):
+                kind_ = r.choice(["if", "if", "elif", "case"])
+                c1 = ["slice", src(1), 0, 1, None]
+                cond.append([kind_, c1, ["slice", src(1), 0, 1, None]] if kind_ == "elif" else [kind_, c1])
         if r.random() < 0.12:
             kind = "sync"        # a register in the loop breaks it
         stmts.append({"place": place, "domain": kind, "target": ["slice", ["sig", n, w, False], lo, hi], "rhs": e, "cond": cond})
@@ -327,8 +332,49 @@ def gen_cycle_design(r, wordlevel=False):
 def show_cycle(spec):
     out = [", ".join(f"{n}:{w}" for n, w in spec["signals"].items())]
     for st in spec["stmts"]:
-        out.append(f"{st['place']}.d.{st['domain']}: " + (f"If({G.show(st['cond'])}): " if st["cond"] else "") + f"{T.show(st['target'])}.eq({G.show(st['rhs'])})")
+        out.append(f"{st['place']}.d.{st['domain']}: " + _show_conds(st["cond"]) + f"{T.show(st['target'])}.eq({G.show(st['rhs'])})")
     return "\n".join(out)
+
+
+def _norm_conds(cond):
+    """Older specs carry a single expression: one If."""
+    if cond is None:
+        return []
+    if cond and isinstance(cond[0], str):
+        return [["if", cond]]
+    return cond
+
+
+def _show_conds(cond):
+    out = ""
+    for c in _norm_conds(cond):
+        if c[0] == "if":
+            out += f"If({G.show(c[1])}): "
+        elif c[0] == "elif":
+            out += f"If({G.show(c[1])}): pass; Elif({G.show(c[2])}): "
+        else:
+            out += f"Switch({G.show(c[1])}) Case(1): "
+    return out
+
+
+def _under(m, conds, sigs, body):
+    """Run body() inside the nest of control blocks."""
+    if not conds:
+        body()
+        return
+    c, rest = conds[0], conds[1:]
+    if c[0] == "if":
+        with m.If(G.build(c[1], sigs)):
+            _under(m, rest, sigs, body)
+    elif c[0] == "elif":
+        with m.If(G.build(c[1], sigs)):
+            pass
+        with m.Elif(G.build(c[2], sigs)):
+            _under(m, rest, sigs, body)
+    else:
+        with m.Switch(G.build(c[1], sigs)):
+            with m.Case(1):
+                _under(m, rest, sigs, body)
 
 
 def build_cycle(spec):
@@ -338,11 +384,10 @@ def build_cycle(spec):
     for st in spec["stmts"]:
         m = mods[st["place"]]
         a = T.build(st["target"], sigs).eq(G.build(st["rhs"], sigs))
-        if st["cond"] is not None:
-            with m.If(G.build(st["cond"], sigs)):
-                m.d[st["domain"]] += a
-        else:
+
+        def body(m=m, st=st, a=a):
             m.d[st["domain"]] += a
+        _under(m, _norm_conds(st["cond"]), sigs, body)
     top = mods["top"]
     top.domains.sync = ClockDomain("sync", reset_less=True)
     mods["c1"].submodules.g = mods["c1.g"]
@@ -458,8 +503,10 @@ def has_cycle(edges):
 def cycle_job(job):
     spec = job["spec"]
     text = show_cycle(spec)
-    wl = spec["wordlevel"]
-    base = {"id": job["id"], "program": text, "nontrivial": True, "kind": "combinational cycles" + (" (word-level operators)" if wl else ""),
+    # structural and functional dependence coincide only without word-level operators and without nests of conditions
+    # (an Elif after an If on the same bit, or contradictory nested conditions, is structurally a path but functionally dead)
+    wl = spec["wordlevel"] or any(len(_norm_conds(st["cond"])) > 1 or any(c[0] != "if" for c in _norm_conds(st["cond"])) for st in spec["stmts"])
+    base = {"id": job["id"], "program": text, "nontrivial": True, "kind": "combinational cycles" + (" (word-level operators or nested conditions)" if wl else ""),
             "assertion": ("a bit that functionally depends on itself makes conversion raise CombinationalCycle" if wl else
                           "conversion raises CombinationalCycle iff some bit functionally depends on itself (bit-precise constructs)"),
             "symbolic": "all signal values (per bit-pair sensitivity queries on one pass of the compiled comb processes)"}
@@ -573,6 +620,14 @@ def corner_cycles():
     out.append({"signals": {"a0": 2, "a1": 2}, "free": free, "wordlevel": False,
                 "stmts": [{"place": "c2", "domain": "comb", "target": T_("a0", 2, 0, 1), "rhs": sl("f0", 4, 0, 1), "cond": sl("a1", 2, 1, 2)},
                           {"place": "top", "domain": "comb", "target": T_("a1", 2, 1, 2), "rhs": sl("a0", 2, 0, 1), "cond": None}]})
+    # a loop that closes only through the OUTER condition of two nested If blocks
+    out.append({"signals": {"a0": 1, "a1": 1}, "free": free, "wordlevel": False,
+                "stmts": [{"place": "top", "domain": "comb", "target": T_("a0", 1, 0, 1), "rhs": sl("f0", 4, 0, 1),
+                           "cond": [["if", sl("a0", 1, 0, 1)], ["if", sl("f1", 4, 0, 1)]]}]})
+    # ... and through the condition of an earlier If of an Elif chain
+    out.append({"signals": {"a0": 1, "a1": 1}, "free": free, "wordlevel": False,
+                "stmts": [{"place": "c1", "domain": "comb", "target": T_("a0", 1, 0, 1), "rhs": sl("f0", 4, 0, 1),
+                           "cond": [["elif", sl("a0", 1, 0, 1), sl("f1", 4, 1, 2)]]}]})
     # a loop broken by a register
     out.append({"signals": {"a0": 2, "a1": 2}, "free": free, "wordlevel": False,
                 "stmts": [{"place": "c2", "domain": "sync", "target": T_("a0", 2, 0, 2), "rhs": sl("a1", 2, 0, 2), "cond": None},
